@@ -222,6 +222,13 @@ impl<'a> Ctx<'a> {
         }
     }
 
+    /// Set the description of the current case without sequence bookkeeping
+    /// (sweeps that enumerate internally, e.g. the state-space search).
+    pub fn force_case(&mut self, desc: &str) {
+        self.cur_desc.clear();
+        self.cur_desc.push_str(desc);
+    }
+
     /// True once the wanted case has been seen in Only/Describe mode.
     pub fn done(&self) -> bool {
         match self.mode {
@@ -289,6 +296,11 @@ pub trait Sweep: Sync {
     /// Is a hang / crash inside a case a verdict for the property (true) or a
     /// machinery failure (false)?
     fn crash_is_verdict(&self) -> bool {
+        false
+    }
+    /// Re-run one recorded case from its description (for sweeps whose cases
+    /// are not addressed by (shard, seq)). Returns false if not supported.
+    fn replay_case(&self, _case: &Value, _ctx: &mut Ctx) -> bool {
         false
     }
 }
@@ -472,4 +484,14 @@ pub fn guard<T, F: FnOnce() -> T>(f: F) -> Result<T, String> {
         Ok(v) => Ok(v),
         Err(_) => Err(PANIC_MSG.with(|m| m.borrow().clone())),
     }
+}
+
+/// Re-run a recorded case: by its description when the sweep supports that,
+/// else by re-enumerating (shard, seq).
+pub fn rerun(sweep: &dyn Sweep, shard: usize, seq: u64, case: &Value) -> Acc {
+    let mut ctx = Ctx::new(&sweep.name(), shard, Mode::Only(seq), None);
+    if sweep.replay_case(case, &mut ctx) {
+        return ctx.acc;
+    }
+    run_one(sweep, shard, seq)
 }
